@@ -18,6 +18,7 @@ CONFIG = {
                  "request layer: cmsys.GetRecord (Eq confirmation; the search itself is C06's model, reused), ptt.Recommend from the lookup on (doAddRecommend -> ModifyDirLite), bbs.DeleteArticles (ToFilename, FindArticleStartIdx, one-record window, article-id confirmation, ptt.DeleteArticles -> DeleteRecord), ptt.EditPost / ptt.CrossPost lookup (hit/miss); confirmation guards regenerated",
                  "cmbbs.PasswdUpdate / PasswdUpdatePasswd / PasswdUpdateEmail / PasswdQuery / PasswdQueryPasswd / PasswdQueryUserLevel (uid guard and UID.IsValid bounds regenerated; field offsets from the type checker)",
                  "cache.SetUMoney / DeUMoney -> passwdUpdateMoney (the 4-byte Money field; batches in any order), ptt.pwcuStart … pwcuEnd (session read-modify-write of a user record through ptt.NewBoard -> groupOp -> pwcuBitEnableLevel; the user-id comparison regenerated)",
+                 "history load (ptt.InitCurrentUserByUID) / in-place money modify (cache.SetUMoney) / whole-record store of the earlier copy (ptt.SetUserPerm -> passwdSyncUpdate -> cmbbs.PasswdUpdate); the funnel's Money re-sync regenerated",
                  "cache.reloadCacheLoadBottom / cache.SetBottomTotal (count guards regenerated) / cache.GetBTotalWithRetry cold path / ptt.LoadBottomArticles"],
     "assumptions": [
         "open/flock/fcntl/write do not fail for environmental reasons (disk full, permissions); only argument-provoked errors are modelled",
